@@ -122,7 +122,16 @@ static int keyonly_cb(jwt_t *jwt, jwt_config_t *cfg)
 	cfg->key = cfg->ctx;
 	return 0;
 }
-/* how: 0 explicit alg with setkey, 1 alg from the key's attribute, 2 callback supplies the key (alg from its attribute) */
+static jwt_alg_t keyalg_cb_alg;
+static int keyalg_cb(jwt_t *jwt, jwt_config_t *cfg)
+{
+	(void)jwt;
+	cfg->key = cfg->ctx;
+	cfg->alg = keyalg_cb_alg;
+	return 0;
+}
+/* how: 0 explicit alg with setkey, 1 alg from the key's attribute, 2 callback supplies the key (alg from its attribute),
+ * 3 callback supplies key (without attribute) and alg */
 static jwt_checker_t *pair_checker_how(pair_t *p, int how)
 {
 	jwt_checker_t *c = jwt_checker_new();
@@ -132,6 +141,10 @@ static jwt_checker_t *pair_checker_how(pair_t *p, int how)
 		rc = jwt_checker_setkey(c, JWT_ALG_NONE, it);
 	else if (how == 2)
 		rc = jwt_checker_setcb(c, keyonly_cb, (void *)it);
+	else if (how == 3) {
+		keyalg_cb_alg = p->alg;
+		rc = jwt_checker_setcb(c, keyalg_cb, (void *)jwks_item_get(jwks_item_alg(jwks_item_get(p->pub, 0)) == JWT_ALG_NONE ? p->pub : attr_set(p), 0));
+	}
 	else
 		rc = jwt_checker_setkey(c, p->alg, jwks_item_get(p->pub, 0));
 	if (rc) {
@@ -664,9 +677,9 @@ static void enumerate_c01(void)
 			vf_nontrivial_case();
 			flush_counts();
 		}
-		for (int how = 0; how < 3; how++)
+		for (int how = 0; how < 4; how++)
 			if (vf_case("%s/%s: adversarial assemblies, truncations and splices; checker configured by %s", pn, an,
-				    how == 0 ? "setkey(alg,key)" : how == 1 ? "setkey(none,key with alg attribute)" : "callback supplying the key")) {
+				    how == 0 ? "setkey(alg,key)" : how == 1 ? "setkey(none,key with alg attribute)" : how == 2 ? "callback supplying the key" : "callback supplying key and alg")) {
 				jwt_checker_t *c = pair_checker_how(p, how);
 				judge(p, c, p->tok_ref[0], "base", 1);
 				mutate_adversarial(p, c, p->tok_ref[0], emit_c01);
